@@ -852,3 +852,53 @@ pub fn run_c09(rep: &Reporter, thorough: bool) -> Value {
         "explanation": "for every seed image: EVERY byte of EVERY chunk file (all bytes belong to complete records) is replaced by each value of the replacement set and the image is opened by the real RaftLog::open; Err, or Ok with the written state, is required, never a panic, and a refused open must leave every non-newest file byte-identical; every middle chunk is removed in turn; and under an open store with an empty cache every byte of every live entry's record in a closed chunk is corrupted on disk and the entry is read. 'states' = distinct mutated images, 'transitions' = opens/reads executed.",
     })
 }
+
+// ---------------------------------------------------------------------------
+// replay of single cases
+// ---------------------------------------------------------------------------
+
+fn seed_from_json(v: &Value) -> Option<Seed> {
+    let hist: Vec<Op> = v["history"].as_array()?.iter().map(crate::seqx::op_from_json).collect();
+    let cfg = crate::seqx::cfg_from_json(&v["cfg"]);
+    run_to_image(&hist, &cfg)
+}
+
+fn parse_damage(s: &str) -> Option<TailDamage> {
+    let nums: Vec<usize> = s.split(|c: char| !c.is_ascii_digit()).filter(|x| !x.is_empty()).filter_map(|x| x.parse().ok()).collect();
+    if s.starts_with("Cut") {
+        Some(TailDamage::Cut(*nums.first()?))
+    } else if s.starts_with("Zeros") {
+        Some(TailDamage::Zeros { boundary: *nums.first()?, len: *nums.get(1)? })
+    } else {
+        None
+    }
+}
+
+/// Re-executes one recorded imagex case against the current tree.
+pub fn replay(rep: &Reporter, r: &Value) -> bool {
+    let Some(seed) = seed_from_json(&r["seed"]) else {
+        println!("REPLAY the seed history no longer produces an image on this tree");
+        return false;
+    };
+    let st = ImgStats::new();
+    match r["engine"].as_str().unwrap_or("") {
+        "imagex-tail" => {
+            let Some(d) = parse_damage(r["damage"].as_str().unwrap_or("")) else { return false };
+            check_tail(rep, &seed, &d, r["truncate"].as_bool().unwrap_or(true), &st);
+        }
+        "imagex-mutate" => {
+            let file = r["file"].as_u64().unwrap_or(0) as usize;
+            let pos = r["pos"].as_u64().unwrap_or(0) as usize;
+            if file >= seed.files.len() || pos >= seed.files[file].1.len() {
+                println!("REPLAY the recorded byte position does not exist in the image produced by this tree");
+                return false;
+            }
+            check_mutation(rep, &seed, file, pos, r["val"].as_u64().unwrap_or(0) as u8, &st);
+        }
+        "imagex-missing" => {
+            check_missing_middle(rep, &seed, &st);
+        }
+        _ => return false,
+    }
+    true
+}
